@@ -137,10 +137,13 @@ class _InlineFunction(XPathFunction):
         context = copy(context)
         if context is not None:
             # The body sees the variables captured by the closure and the parameters,
-            # that must not leak into the caller's variables.
-            context.variables = context.variables.copy()
-            if self.variables:
-                context.variables.update(self.variables)
+            # that must not leak into the caller's variables. The variables of the
+            # caller are not visible (lexical scope), unless the function item has
+            # not been created by the evaluation of an inline function expression.
+            if self.variables is None:
+                context.variables = context.variables.copy()
+            else:
+                context.variables = self.variables.copy()
 
         if self.varnames is None:
             self.varnames = []
@@ -172,9 +175,6 @@ class _InlineFunction(XPathFunction):
                 args = cast(tuple[ta.FunctionArgType], (context.item,))
 
             partial_function = False
-            if self.variables is None:
-                self.variables = {}
-
             for varname, sequence_type, value in zip(self.varnames, self.sequence_types, args):
                 if isinstance(value, XPathToken) and value.symbol == '?':
                     partial_function = True
